@@ -19,6 +19,7 @@ import GwcsModel.Drv.C02
 import GwcsModel.Drv.C12
 import GwcsModel.Drv.C16
 import GwcsModel.Drv.C09
+import GwcsModel.Drv.C11
 open Lean Gwcs
 
 def dispatch (j : Json) : Json :=
@@ -29,6 +30,7 @@ def dispatch (j : Json) : Json :=
   | some "C12" => Gwcs.Drv.C12.handle j
   | some "C16" => Gwcs.Drv.C16.handle j
   | some "C09" => Gwcs.Drv.C09.handle j
+  | some "C11" => Gwcs.Drv.C11.handle j
   | some "C02" => Gwcs.Drv.C02.handle j
   | some "C05" => Gwcs.Drv.C05.handle j
   | some "C04" => Gwcs.Drv.C04.handle j
